@@ -14,7 +14,11 @@ func (w *simWorld) installPolicies() error {
 	if len(w.sc.Policies) == 0 {
 		return nil
 	}
-	return w.installPolicyCfgs(w.sc.Policies)
+	l := w.sc.Policies
+	if w.sc.Family == "reset" {
+		l = resetEditedPolicies(w.sc)
+	}
+	return w.installPolicyCfgs(l)
 }
 
 func (w *simWorld) installPolicyCfgs(l []PolicyCfg) error {
@@ -47,7 +51,7 @@ func (w *simWorld) installPolicyCfgs(l []PolicyCfg) error {
 			cond.NeighborSet = &api.MatchSet{Type: api.MatchSet_TYPE_ANY, Name: ds.Name}
 		}
 		if p.Comm != "" {
-			ds := &api.DefinedSet{DefinedType: api.DefinedType_DEFINED_TYPE_COMMUNITY, Name: "cs-" + p.Name, List: []string{p.Comm}}
+			ds := &api.DefinedSet{DefinedType: api.DefinedType_DEFINED_TYPE_COMMUNITY, Name: "cs-" + p.Name, List: append([]string{p.Comm}, p.Comms...)}
 			if err := w.s.AddDefinedSet(ctx, &api.AddDefinedSetRequest{DefinedSet: ds}); err != nil {
 				return err
 			}
@@ -100,4 +104,40 @@ func (w *simWorld) assignPolicy(dir string, name string) error {
 		pa.Policies = []*api.Policy{{Name: name}}
 	}
 	return w.s.SetPolicyAssignment(context.Background(), &api.SetPolicyAssignmentRequest{Assignment: pa})
+}
+
+func prefixAPI(x string) *api.Prefix {
+	bits := uint32(24)
+	fmt.Sscanf(x[len(x)-2:], "%d", &bits)
+	if x[len(x)-3] != '/' {
+		fmt.Sscanf(x[len(x)-1:], "%d", &bits)
+	}
+	return &api.Prefix{IpPrefix: x, MaskLengthMin: bits, MaskLengthMax: bits}
+}
+
+// editDefinedSet changes a defined set IN PLACE through the API: members are removed with
+// DeleteDefinedSet(all=false) and added with AddDefinedSet (append).
+func (w *simWorld) editDefinedSet(e *setEdit) error {
+	ctx := context.Background()
+	mk := func(members []string) *api.DefinedSet {
+		if e.Kind == "prefix" {
+			ds := &api.DefinedSet{DefinedType: api.DefinedType_DEFINED_TYPE_PREFIX, Name: "ps-" + e.Policy}
+			for _, m := range members {
+				ds.Prefixes = append(ds.Prefixes, prefixAPI(m))
+			}
+			return ds
+		}
+		return &api.DefinedSet{DefinedType: api.DefinedType_DEFINED_TYPE_COMMUNITY, Name: "cs-" + e.Policy, List: members}
+	}
+	if len(e.Remove) > 0 {
+		if err := w.s.DeleteDefinedSet(ctx, &api.DeleteDefinedSetRequest{DefinedSet: mk(e.Remove), All: false}); err != nil {
+			return err
+		}
+	}
+	if len(e.Add) > 0 {
+		if err := w.s.AddDefinedSet(ctx, &api.AddDefinedSetRequest{DefinedSet: mk(e.Add)}); err != nil {
+			return err
+		}
+	}
+	return nil
 }
